@@ -481,4 +481,370 @@ theorem run_spec (c : Case) (h : c.wf = true) : Spec.C13 c (run c) = true := by
     subst hs'
     rfl
 
+
+theorem lastRaised_none_iff (f : Faults) : ∀ (l : List Ev),
+    lastRaised f l none = none ↔ ∀ e ∈ l, raises f e = false
+  | [] => by simp [lastRaised]
+  | x :: l => by
+    rw [lastRaised_cons]
+    cases hx : faultTag f x with
+    | none =>
+      simp only [Option.or_none, List.mem_cons, forall_eq_or_imp, raises, hx, Option.isSome_none, true_and]
+      exact lastRaised_none_iff f l
+    | some t =>
+      have := lastRaised_isSome f l t
+      constructor
+      · intro h
+        have h' : lastRaised f l (some t) = none := by simpa using h
+        simp [h'] at this
+      · intro h
+        have := h x (by simp)
+        simp [raises, hx] at this
+
+/-- **An exception reaches the caller iff something raised**: the caller of a session sees no
+    exception exactly when no callback in the log (and no body `raise`) raised. -/
+theorem exc_iff_raised (delay : Nat) (steps : List Step) (s : Session) (m : Mach)
+    (hrc : m.rc = 0) (hb : balanced s.body 0 = true) :
+    (runSession delay steps s m).1.exc = none
+      ↔ ∀ e ∈ (runSession delay steps s m).1.trace, raises s.f e = false := by
+  obtain ⟨a, b, _⟩ := session_spec delay steps s m hrc hb
+  rw [b, ← a, lastRaised_noSleep, lastRaised_none_iff]
+
+theorem probe_f : probe.f = fun _ => false := by
+  funext t; simp [Session.f, probe]
+
+theorem begin_not_raises (s : Step) : ∀ e ∈ beginEvs s, raises (fun _ => false) e = false := by
+  obtain ⟨id, k⟩ := s
+  cases k <;> simp [beginEvs, raises, faultTag]
+
+/-- **Afterwards a fresh entry initialises again**: whatever a session did (any faults, any body),
+    the next fault-free entry on the same object begins every step, in order, and tears every
+    one of them down in reverse; no exception. -/
+theorem fresh_entry_reinit (delay : Nat) (steps : List Step) (s : Session) (m : Mach)
+    (hrc : m.rc = 0) (hb : balanced s.body 0 = true) :
+    noSleep (runSession delay steps probe (runSession delay steps s m).2).1.trace
+        = steps.flatMap beginEvs ++ teardown (fun _ => false) (steps.flatMap beginEvs)
+    ∧ (runSession delay steps probe (runSession delay steps s m).2).1.exc = none
+    ∧ (runSession delay steps probe (runSession delay steps s m).2).1.rc = 0 := by
+  obtain ⟨_, _, _, d, _⟩ := session_spec delay steps s m hrc hb
+  obtain ⟨a, b, c, _⟩ := session_spec delay steps probe (runSession delay steps s m).2 d rfl
+  have hnone : ∀ e ∈ steps.flatMap beginEvs, raises (fun _ => false) e = false := by
+    intro e he
+    obtain ⟨s', _, hs'⟩ := List.mem_flatMap.mp he
+    exact begin_not_raises s' e hs'
+  have hini : expectedInit steps (fun _ => false) = steps.flatMap beginEvs := uptoFirst_of_none hnone
+  have hT : expectedTrace steps probe.f probe.body
+      = steps.flatMap beginEvs ++ teardown (fun _ => false) (steps.flatMap beginEvs) := by
+    rw [probe_f]
+    simp only [expectedTrace, hini, (all_not_raises_iff _ _).mpr hnone, if_true]
+    simp [probe, expectedBody, uptoFirst]
+  refine ⟨by rw [a, hT], ?_, c⟩
+  rw [b, hT, probe_f, lastRaised_none_iff]
+  intro e he
+  rcases List.mem_append.mp he with he | he
+  · exact hnone e he
+  · simp only [teardown, List.mem_reverse, List.mem_flatMap] at he
+    obtain ⟨x, _, hx⟩ := he
+    cases x <;> simp [teardownOf] at hx <;> subst hx <;> simp [raises, faultTag]
+
+
+theorem mem_uptoFirst {α} {p : α → Bool} : ∀ {l : List α} {x : α}, x ∈ uptoFirst p l → x ∈ l
+  | [], _, h => by simp [uptoFirst] at h
+  | a :: l, x, h => by
+    unfold uptoFirst at h
+    cases ha : p a with
+    | true => simp [ha] at h; simp [h]
+    | false =>
+      simp only [ha, Bool.false_eq_true, if_false, List.mem_cons] at h
+      rcases h with h | h
+      · simp [h]
+      · simp [mem_uptoFirst h]
+
+theorem count_noSleep (e : Ev) (he : isSleep e = false) (l : List Ev) :
+    List.count e (noSleep l) = List.count e l := by
+  unfold noSleep
+  exact List.count_filter (by simp [he])
+
+theorem count_off_teardown (f : Faults) (id : Nat) : ∀ (ini : List Ev),
+    List.count (.off id) (teardown f ini) = List.count (.on id) ini
+  | [] => rfl
+  | x :: ini => by
+    have ih := count_off_teardown f id ini
+    have : teardown f (x :: ini) = teardown f ini ++ (teardownOf f x).reverse := by
+      simp [teardown]
+    rw [this, List.count_append, ih, List.count_cons]
+    cases x <;> simp [teardownOf]
+    case enter i => split <;> simp
+    case on i => by_cases h : i = id <;> simp [h]
+
+theorem not_on_mem_teardown (f : Faults) (id : Nat) (ini : List Ev) : Ev.on id ∉ teardown f ini := by
+  simp only [teardown, List.mem_reverse, List.mem_flatMap, not_exists, not_and]
+  intro x _ hx
+  cases x <;> simp [teardownOf] at hx
+
+theorem not_off_mem_begin (id : Nat) (steps : List Step) : Ev.off id ∉ steps.flatMap beginEvs := by
+  simp only [List.mem_flatMap, not_exists, not_and]
+  intro s _ hs
+  obtain ⟨i, k⟩ := s
+  cases k <;> simp [beginEvs] at hs
+
+theorem mem_expectedBody {e : Ev} {ops : List Op} (h : e ∈ expectedBody ops) : ∃ op ∈ ops, e = op.ev := by
+  have := mem_uptoFirst h
+  simp only [List.mem_map] at this
+  obtain ⟨op, ho, rfl⟩ := this
+  exact ⟨op, ho, rfl⟩
+
+theorem not_power_mem_body (id : Nat) (ops : List Op) :
+    Ev.on id ∉ expectedBody ops ∧ Ev.off id ∉ expectedBody ops := by
+  constructor <;> intro h <;> obtain ⟨op, _, ho⟩ := mem_expectedBody h <;> cases op <;> simp [Op.ev] at ho
+
+theorem count_expectedTrace (steps : List Step) (f : Faults) (body : List Op) (id : Nat) :
+    List.count (.off id) (expectedTrace steps f body) = List.count (.on id) (expectedTrace steps f body) := by
+  unfold expectedTrace
+  simp only [List.count_append, count_off_teardown]
+  have h1 : List.count (Ev.off id) (expectedInit steps f) = 0 :=
+    List.count_eq_zero.mpr (fun h => not_off_mem_begin id steps (mem_uptoFirst h))
+  have h2 : List.count (Ev.on id) (teardown f (expectedInit steps f)) = 0 :=
+    List.count_eq_zero.mpr (not_on_mem_teardown f id _)
+  rw [h1, h2]
+  split
+  · rw [List.count_eq_zero.mpr (not_power_mem_body id body).1, List.count_eq_zero.mpr (not_power_mem_body id body).2]
+    omega
+  · simp
+
+/-- **Power, exactly once.**  In every session the number of `poweroff` calls of a power step
+    equals the number of its `poweron` attempts (with distinct ids: 0 or 1). -/
+theorem power_off_count (delay : Nat) (steps : List Step) (s : Session) (m : Mach)
+    (hrc : m.rc = 0) (hb : balanced s.body 0 = true) (id : Nat) :
+    List.count (.off id) (runSession delay steps s m).1.trace
+      = List.count (.on id) (runSession delay steps s m).1.trace := by
+  obtain ⟨a, _⟩ := session_spec delay steps s m hrc hb
+  rw [← count_noSleep _ rfl, ← count_noSleep (.on id) rfl, a]
+  exact count_expectedTrace steps s.f s.body id
+
+/-- **Power, position.**  If `poweron` of step `id` was attempted after the begin callbacks `A`
+    and before `B`, then the log ends with the tear-down of everything begun later (`B`), then
+    `poweroff`, then the tear-down of everything begun earlier (`A`). -/
+theorem power_off_position (delay : Nat) (steps : List Step) (s : Session) (m : Mach)
+    (hrc : m.rc = 0) (hb : balanced s.body 0 = true) (id : Nat) (A B : List Ev)
+    (h : expectedInit steps s.f = A ++ .on id :: B) :
+    ∃ bod, noSleep (runSession delay steps s m).1.trace
+      = (A ++ .on id :: B) ++ bod ++ (teardown s.f B ++ .off id :: teardown s.f A) := by
+  obtain ⟨a, _⟩ := session_spec delay steps s m hrc hb
+  refine ⟨if (A ++ Ev.on id :: B).all (fun e => !raises s.f e) then expectedBody s.body else [], ?_⟩
+  rw [a]
+  unfold expectedTrace
+  simp only [h]
+  have : teardown s.f (A ++ .on id :: B) = teardown s.f B ++ .off id :: teardown s.f A := by
+    have h2 : A ++ Ev.on id :: B = A ++ ([Ev.on id] ++ B) := by simp
+    rw [h2, teardown_append, teardown_append]
+    simp [teardown, teardownOf]
+  rw [this]
+
+
+theorem uptoFirst_prefix {α} (p : α → Bool) : ∀ (l : List α), ∃ r, l = uptoFirst p l ++ r
+  | [] => ⟨[], rfl⟩
+  | a :: l => by
+    unfold uptoFirst
+    cases ha : p a with
+    | true => exact ⟨l, by simp⟩
+    | false =>
+      obtain ⟨r, hr⟩ := uptoFirst_prefix p l
+      exact ⟨r, by simp [← hr]⟩
+
+theorem uptoFirst_before {α} {p : α → Bool} : ∀ {l A : List α} {x : α} {B : List α},
+    uptoFirst p l = A ++ x :: B → ∀ a ∈ A, p a = false
+  | [], A, x, B, h => by cases A <;> simp [uptoFirst] at h
+  | y :: l, A, x, B, h => by
+    unfold uptoFirst at h
+    cases hy : p y with
+    | true =>
+      simp only [hy, if_true] at h
+      cases A with
+      | nil => intro a ha; simp at ha
+      | cons a' A' =>
+        simp only [List.cons_append, List.cons.injEq] at h
+        have := h.2
+        cases A' <;> simp at this
+    | false =>
+      simp only [hy, Bool.false_eq_true, if_false] at h
+      cases A with
+      | nil => intro a ha; simp at ha
+      | cons a' A' =>
+        simp only [List.cons_append, List.cons.injEq] at h
+        obtain ⟨rfl, h⟩ := h
+        intro a ha
+        rcases List.mem_cons.mp ha with rfl | ha
+        · exact hy
+        · exact uptoFirst_before h a ha
+
+theorem on_mem_begin {id : Nat} {s : Step} (h : Ev.on id ∈ beginEvs s) : beginEvs s = [.check id, .on id] := by
+  obtain ⟨i, k⟩ := s
+  cases k <;> simp [beginEvs] at h ⊢
+  exact h.symm
+
+theorem on_not_mem_expectedInit (f : Faults) (id : Nat) (h : raises f (.check id) = true) :
+    ∀ (steps : List Step), Ev.on id ∉ expectedInit steps f
+  | [] => by simp [expectedInit, uptoFirst]
+  | s :: rest => by
+    have ih := on_not_mem_expectedInit f id h rest
+    unfold expectedInit at ih ⊢
+    rw [List.flatMap_cons]
+    cases hany : (beginEvs s).any (raises f) with
+    | true =>
+      rw [uptoFirst_append_of_any hany]
+      intro hm
+      have hb := on_mem_begin (mem_uptoFirst hm)
+      rw [hb] at hm
+      simp [uptoFirst, h] at hm
+    | false =>
+      have hnone : ∀ x ∈ beginEvs s, raises f x = false := by
+        intro x hx
+        have := List.any_eq_false.mp hany x hx
+        simpa using this
+      rw [uptoFirst_append_of_none hnone]
+      intro hm
+      rcases List.mem_append.mp hm with hm | hm
+      · have hb := on_mem_begin hm
+        have := hnone (.check id) (by rw [hb]; simp)
+        rw [h] at this; cases this
+      · exact ih hm
+
+theorem on_mem_trace_iff (delay : Nat) (steps : List Step) (s : Session) (m : Mach)
+    (hrc : m.rc = 0) (hb : balanced s.body 0 = true) (id : Nat) :
+    Ev.on id ∈ (runSession delay steps s m).1.trace ↔ Ev.on id ∈ expectedInit steps s.f := by
+  obtain ⟨a, _⟩ := session_spec delay steps s m hrc hb
+  have h1 : Ev.on id ∈ (runSession delay steps s m).1.trace ↔ Ev.on id ∈ noSleep (runSession delay steps s m).1.trace := by
+    simp [noSleep, isSleep]
+  rw [h1, a]
+  unfold expectedTrace
+  simp only [List.mem_append]
+  constructor
+  · rintro ((h | h) | h)
+    · exact h
+    · split at h
+      · exact absurd h (not_power_mem_body id s.body).1
+      · simp at h
+    · exact absurd h (not_on_mem_teardown s.f id _)
+  · intro h; exact Or.inl (Or.inl h)
+
+/-- **Power check failing ⇒ neither on nor off.**  If `power_check` raises or returns `False`
+    for a power step, its `poweron` and `poweroff` are never called in that session. -/
+theorem refused_no_power (delay : Nat) (steps : List Step) (s : Session) (m : Mach)
+    (hrc : m.rc = 0) (hb : balanced s.body 0 = true) (id : Nat)
+    (h : s.f (.check id) = true ∨ s.f (.refused id) = true) :
+    Ev.on id ∉ (runSession delay steps s m).1.trace ∧ Ev.off id ∉ (runSession delay steps s m).1.trace := by
+  have hr : raises s.f (.check id) = true := by
+    rcases h with h | h
+    · simp [raises, faultTag, h]
+    · by_cases h' : s.f (.check id) = true <;> simp [raises, faultTag, h, h']
+  have hon : Ev.on id ∉ (runSession delay steps s m).1.trace := by
+    rw [on_mem_trace_iff delay steps s m hrc hb]
+    exact on_not_mem_expectedInit s.f id hr steps
+  refine ⟨hon, ?_⟩
+  have := power_off_count delay steps s m hrc hb id
+  rw [List.count_eq_zero.mpr hon] at this
+  exact List.count_eq_zero.mp this
+
+
+/-- in the documented order the connector's `__enter__` precedes every `poweron` -/
+theorem begin_split (mro : List Step) (k : Nat) (hk : (⟨k, .conn⟩ : Step) ∈ mro) :
+    ∃ P Q, (specOrder mro).flatMap beginEvs = P ++ Q ∧ Ev.enter k ∈ P ∧ ∀ w, Ev.on w ∉ P := by
+  have hr : List.range 6 = [0, 1, 2, 3, 4, 5] := by decide
+  refine ⟨(mro.filter (fun s => s.kind.rank == 0) ++ mro.filter (fun s => s.kind.rank == 1)).flatMap beginEvs,
+    (mro.filter (fun s => s.kind.rank == 2) ++ mro.filter (fun s => s.kind.rank == 3)
+      ++ mro.filter (fun s => s.kind.rank == 4) ++ mro.filter (fun s => s.kind.rank == 5)).flatMap beginEvs, ?_, ?_, ?_⟩
+  · unfold specOrder
+    rw [hr]
+    simp [List.flatMap_append]
+  · rw [List.flatMap_append, List.mem_append]
+    right
+    rw [List.mem_flatMap]
+    exact ⟨⟨k, .conn⟩, by simp [hk, Kind.rank], by simp [beginEvs]⟩
+  · intro w hw
+    rw [List.mem_flatMap] at hw
+    obtain ⟨s, hs, hw⟩ := hw
+    obtain ⟨i, kd⟩ := s
+    rw [List.mem_append, List.mem_filter, List.mem_filter] at hs
+    cases kd <;> simp [Kind.rank, beginEvs] at hs hw
+
+/-- **Power off before the connection is closed.**  For a well-formed composition with connector
+    `k`: whenever `poweron` of power step `w` was attempted in a session, the log has the form
+    `X ++ poweroff w :: Y` with the connector's `__exit__` in `Y` — the board is switched off while
+    the console connection is still open. -/
+theorem conn_exit_after_power_off (c : Case) (hwf : c.wf = true) (s : Session) (m : Mach)
+    (hrc : m.rc = 0) (hb : balanced s.body 0 = true) (k w : Nat) (hk : (⟨k, .conn⟩ : Step) ∈ c.mro)
+    (hon : Ev.on w ∈ (runSession c.delay (machSteps c.mro) s m).1.trace) :
+    ∃ X Y, noSleep (runSession c.delay (machSteps c.mro) s m).1.trace = X ++ .off w :: Y
+      ∧ Ev.exit k ∈ Y := by
+  have hsteps : machSteps c.mro = specOrder c.mro := by
+    simp only [Case.wf, Bool.and_eq_true, beq_iff_eq, decide_eq_true_eq] at hwf
+    obtain ⟨⟨⟨⟨hc, hs⟩, _⟩, hh⟩, _⟩ := hwf
+    exact machSteps_eq_specOrder c.mro
+      (by unfold Case.mro; rw [mroFrom_filter_length]; omega)
+      (by unfold Case.mro; rw [mroFrom_filter_length]; omega)
+      (by unfold Case.mro; rw [mroFrom_filter_length]; omega)
+  rw [hsteps] at hon ⊢
+  rw [on_mem_trace_iff _ _ s m hrc hb] at hon
+  obtain ⟨A, B, hAB⟩ := List.append_of_mem hon
+  obtain ⟨bod, htr⟩ := power_off_position c.delay (specOrder c.mro) s m hrc hb w A B hAB
+  refine ⟨A ++ Ev.on w :: B ++ bod ++ teardown s.f B, teardown s.f A, by rw [htr]; simp, ?_⟩
+  -- the connector's enter is in `A` and did not raise
+  obtain ⟨P, Q, hPQ, hkP, hnoP⟩ := begin_split c.mro k hk
+  obtain ⟨r, hr⟩ := uptoFirst_prefix (raises s.f) ((specOrder c.mro).flatMap beginEvs)
+  have hA : ∀ a ∈ A, raises s.f a = false := uptoFirst_before (by unfold expectedInit at hAB; exact hAB)
+  have hkA : Ev.enter k ∈ A := by
+    unfold expectedInit at hAB
+    rw [hAB, hPQ, List.append_assoc] at hr
+    rcases List.append_eq_append_iff.mp hr with ⟨a', ha, _⟩ | ⟨c', hc, hd⟩
+    · rw [ha]; exact List.mem_append_left _ hkP
+    · cases c' with
+      | nil => simp at hc; rw [← hc]; exact hkP
+      | cons x c'' =>
+        simp only [List.cons_append, List.cons.injEq] at hd
+        exact absurd (by rw [hc, hd.1]; simp) (hnoP w)
+  have hf : s.f (.enter k) = false := by
+    have := hA _ hkA
+    by_cases h : s.f (.enter k) = true
+    · simp [raises, faultTag, h] at this
+    · simpa using h
+  simp only [teardown, List.mem_reverse, List.mem_flatMap]
+  exact ⟨.enter k, hkA, by simp [teardownOf, hf]⟩
+
+
+/-! ## Non-vacuity: concrete, non-trivial inputs satisfy the hypotheses; the Spec is not trivially true -/
+
+/-- pre, connector, initialiser, PowerControl, initialiser, shell, post-shell, `init` override;
+    session 1: `poweron` raises and the exit of step 2 raises during the unwinding;
+    session 2 (2 ticks later): nested once, body raises, two exits raise. -/
+def ex1 : Case :=
+  { bases := [.pre, .conn, .init, .power, .init, .shell, .post, .hook], delay := 5,
+    sessions := [{ gap := 0, faults := [.on 3, .exit 2], body := [] },
+                 { gap := 2, faults := [.exit 4, .exit 1], body := [.opened, .raise 1, .closed] }] }
+
+example : ex1.wf = true := by decide
+example : (run ex1).map (·.exc) = [some (.exit 2), some (.exit 1), none] := by decide
+example : ((run ex1).map (·.trace))[0]? = some [.enter 0, .enter 1, .enter 2, .check 3, .on 3, .off 3,
+    .exit 2, .exit 1, .exit 0] := by decide
+example : Spec.C13 ex1 (run ex1) = true := run_spec ex1 (by decide)
+
+/-- the hypotheses of `conn_exit_after_power_off` are satisfiable (connector 1, power step 3) -/
+example : (⟨1, .conn⟩ : Step) ∈ ex1.mro
+    ∧ Ev.on 3 ∈ (runSession ex1.delay (machSteps ex1.mro) { faults := [.exit 4] } {}).1.trace := by decide
+
+/-- the hypothesis of `refused_no_power` is satisfiable and its conclusion is not vacuous:
+    with the check passing the same composition does switch the power on -/
+example : Ev.on 3 ∈ (runSession 0 (machSteps ex1.mro) {} {}).1.trace
+    ∧ Ev.on 3 ∉ (runSession 0 (machSteps ex1.mro) { faults := [.refused 3] } {}).1.trace := by decide
+
+/-- the Spec rejects: a log without the power-off, a log torn down in entry order, a swallowed
+    exception, a counter that stays up, a machine that does not come up again -/
+example : Spec.C13 ex1 ((run ex1).map fun o => { o with trace := o.trace.filter (· != .off 3) }) = false := by decide
+example : Spec.C13 { ex1 with sessions := [] }
+    [⟨[.enter 0, .enter 1, .enter 2, .check 3, .on 3, .enter 4, .enter 5, .enter 6, .hook 7,
+       .exit 0, .exit 1, .exit 2, .off 3, .exit 4, .exit 5, .exit 6], none, 0⟩] = false := by decide
+example : Spec.C13 ex1 ((run ex1).map fun o => { o with exc := none }) = false := by decide
+example : Spec.C13 ex1 ((run ex1).map fun o => { o with rc := 1 }) = false := by decide
+example : Spec.C13 ex1 ((run ex1).dropLast ++ [⟨[], none, 0⟩]) = false := by decide
+
 end C13
